@@ -23,20 +23,24 @@ Variable genc : ctype -> V -> B.
 Variable gdec : ctype -> B -> option V.
 (* gob is abstracted: whatever it writes for a value it reads back as that value *)
 Hypothesis gob_roundtrip : forall c v, gdec c (genc c v) = Some v.
+(* the two switches of the model: all statements below hold for both values
+   unless they say [rp = true] / [rr = true] *)
+Variables rp rr : bool.
 
 Notation arg := (arg V).
 Notation typecheck := (@typecheck V).
 Notation typecheck1 := (@typecheck1 V).
 Notation subst_arg := (@subst_arg V).
 Notation subst_args := (@subst_args V).
-Notation encode_arg := (encode_arg V B genc).
-Notation encode_args := (encode_args V B genc).
+Notation encode_arg := (encode_arg V B genc rp).
+Notation encode_args := (encode_args V B genc rp).
 Notation decode_arg := (decode_arg V B gdec).
 Notation decode_args := (decode_args V B gdec).
 Notation subst_back := (@subst_back V).
-Notation codec := (codec V B genc gdec).
-Notation run_prefix := (run_prefix V B genc).
-Notation transport := (transport V B genc gdec).
+Notation codec := (codec V B genc gdec rp).
+Notation run_prefix := (run_prefix V B genc rp).
+Notation transport := (transport V B genc gdec rp rr).
+Notation has_nil_result := (@has_nil_result V).
 Notation ships := (@ships V).
 Notation must_arrive := (@must_arrive V).
 Notation unencodable := (@unencodable V).
@@ -122,9 +126,17 @@ Proof.
     apply (subst_arg_back known compiled a a' (ships_any p a Hs1) Hsub Hc1 a1 args E4).
 Qed.
 
+Lemma ships_no_nil_result : forall ps args,
+  forallb2 ships ps args = true -> has_nil_result args = false.
+Proof.
+  induction ps as [|p ps IH]; intros [|a args] Hs; simpl in Hs; try discriminate; [reflexivity|].
+  apply andb_true_iff in Hs as [Hs1 Hs]. specialize (IH args Hs).
+  destruct a as [|c v|c|i|i]; simpl in Hs1; try discriminate; simpl; exact IH.
+Qed.
+
 (* Invocations reach workers intact: well-typed arguments that the code ships
-   (everything the property lists except the nil cases, see the refutations
-   below) are what the worker's Func is applied to. *)
+   (everything the property lists except an untyped nil for a non-interface
+   parameter, see the refutation below) are what the worker's Func is applied to. *)
 Theorem transport_shape known compiled ps args :
   typecheck ps args = true -> forallb2 ships ps args = true ->
   results_in known args = true -> results_in compiled args = true ->
@@ -132,7 +144,8 @@ Theorem transport_shape known compiled ps args :
 Proof.
   intros Ht Hs Hk Hc.
   destruct (pipeline known compiled ps args Ht Hs Hk Hc) as [a1 [ws [E1 [E2 [E3 E4]]]]].
-  unfold Invocation.transport, Invocation.run_prefix. now rewrite Ht, E1, E2, E3, E4, Ht.
+  unfold Invocation.transport, Invocation.run_prefix.
+  rewrite (ships_no_nil_result ps args Hs), andb_false_r. now rewrite Ht, E1, E2, E3, E4, Ht.
 Qed.
 
 Definition no_results (args : list arg) : bool :=
@@ -163,27 +176,61 @@ Qed.
 
 (* ---- arguments that cannot be encoded ---- *)
 
-Lemma unencodable_encode_err known p a a' :
-  unencodable p a = true -> subst_arg known a = Some a' -> encode_arg p a' = E1Err.
+(* an unencodable argument is never turned into a message *)
+Lemma unencodable_not_ok known p a a' :
+  unencodable p a = true -> subst_arg known a = Some a' -> forall w, encode_arg p a' <> E1Ok w.
 Proof.
   destruct a as [|c v|c|i|i]; simpl; try discriminate.
+  - intros H Hs w. inversion Hs; subst. destruct p as [c| | |]; try discriminate H.
+    simpl. discriminate.
+  - intros H Hs w. inversion Hs; subst. apply andb_true_iff in H as [_ H].
+    unfold Invocation.encode_arg. destruct (is_iface p); apply negb_true_iff in H.
+    + unfold iface_sendable in H. destruct (regname c); [discriminate H | discriminate].
+    + rewrite H. discriminate.
+  - intros _ Hs w. unfold Invocation.encode_arg.
+    destruct c; simpl in Hs; try discriminate Hs; inversion Hs; subst;
+      destruct (is_iface p), rp; simpl; discriminate.
+Qed.
+
+(* with the nil-pointer test in GobEncode it is reported as an error *)
+Lemma unencodable_encode_err known p a a' : rp = true ->
+  unencodable p a = true -> subst_arg known a = Some a' -> encode_arg p a' = E1Err.
+Proof.
+  intro Hrp. destruct a as [|c v|c|i|i]; simpl; try discriminate.
   - intros H Hs. inversion Hs; subst. destruct p as [c| | |]; try discriminate H. reflexivity.
   - intros H Hs. inversion Hs; subst. apply andb_true_iff in H as [_ H].
     unfold Invocation.encode_arg. destruct (is_iface p); apply negb_true_iff in H.
     + unfold iface_sendable in H. destruct (regname c); [discriminate | reflexivity].
     + now rewrite H.
-  - intros H Hs. unfold Invocation.encode_arg. unfold nil_representable in H.
-    destruct c, (is_iface p); simpl in H; try discriminate; inversion Hs; subst; reflexivity.
+  - intros _ Hs. unfold Invocation.encode_arg. rewrite Hrp.
+    destruct c; simpl in Hs; try discriminate Hs; inversion Hs; subst;
+      destruct (is_iface p); reflexivity.
 Qed.
 
-Lemma unencodable_subst known p a : unencodable p a = true -> subst_arg known a = Some a.
+Lemma subst_arg_total known a :
+  results_in known [a] = true -> has_nil_result [a] = false -> exists a', subst_arg known a = Some a'.
 Proof.
-  destruct a as [|c v|c|i|i]; simpl; try discriminate; try reflexivity.
-  unfold nil_representable. destruct c, (is_iface p); simpl; try discriminate; reflexivity.
+  destruct a as [|c v|c|i|i]; simpl; intros Hk Hn; eauto.
+  - destruct c; try discriminate Hn; eauto.
+  - rewrite andb_true_r in Hk. rewrite Hk. eauto.
+Qed.
+
+Lemma has_nil_result_cons a r : has_nil_result (a :: r) = has_nil_result [a] || has_nil_result r.
+Proof. destruct a as [|c v|c|i|i]; try reflexivity. destruct c; reflexivity. Qed.
+
+Lemma subst_args_total known : forall args,
+  results_in known args = true -> has_nil_result args = false ->
+  exists a1, subst_args known args = SOk a1 /\ List.length a1 = List.length args.
+Proof.
+  induction args as [|a args IH]; intros Hk Hn; [exists []; split; reflexivity|].
+  rewrite results_in_cons in Hk. apply andb_true_iff in Hk as [Hk1 Hk].
+  rewrite has_nil_result_cons in Hn. apply orb_false_iff in Hn as [Hn1 Hn].
+  destruct (IH Hk Hn) as [r [Er El]]. destruct (subst_arg_total known a Hk1 Hn1) as [a' Ea].
+  exists (a' :: r). simpl. rewrite Ea, Er. split; [reflexivity | simpl; now rewrite El].
 Qed.
 
 (* An unencodable argument never gets past Run's eager check: Run never goes on
-   to ask for a machine. *)
+   to ask for a machine (whatever the switches). *)
 Theorem unencodable_never_offered known : forall ps args,
   existsb2 unencodable ps args = true ->
   forall ws, run_prefix known ps args <> RunOffer ws.
@@ -194,56 +241,116 @@ Proof.
   { clear ws. revert args a1 H Es. induction ps as [|p ps IH]; intros [|a args] a1 H Es; simpl in H; try discriminate.
     simpl in Es. destruct (subst_arg known a) as [a'|] eqn:Ea; [|discriminate].
     destruct (subst_args known args) as [r|] eqn:Er; [|discriminate]. inversion Es; subst a1.
-    intros ws'. simpl. apply orb_true_iff in H as [H|H].
-    - now rewrite (unencodable_encode_err known p a a' H Ea).
-    - destruct (encode_arg p a'); try discriminate.
-      destruct (encode_args ps r) as [ws1| |] eqn:Ee; try discriminate.
-      exfalso. apply (IH args r H Er ws1 Ee). }
+    intros ws'. simpl. destruct (encode_arg p a') as [w| |] eqn:Ee; try discriminate.
+    apply orb_true_iff in H as [H|H].
+    - exfalso. exact (unencodable_not_ok known p a a' H Ea w Ee).
+    - destruct (encode_args ps r) as [ws1| |] eqn:Ee2; try discriminate.
+      exfalso. apply (IH args r H Er ws1 Ee2). }
   destruct (encode_args ps a1) as [ws1| |] eqn:Ee; try discriminate. exfalso. now apply (Hne ws1).
 Qed.
 
-(* If every argument is either shipped or unencodable (no nil cases) and at
-   least one is unencodable, the task ends in TaskErr and Run returns: a prompt
-   error, no panic, no machine. *)
-Theorem unencodable_is_fatal known compiled : forall ps args,
+(* Current code (GobEncode tests for nil pointers): if every argument is either
+   shipped or unencodable, at least one is unencodable and none is a nil *Result,
+   the task ends in TaskErr and Run returns: a prompt error, no panic, no machine. *)
+Theorem unencodable_is_fatal known compiled : rp = true -> forall ps args,
   typecheck ps args = true ->
   forallb2 (fun p a => ships p a || unencodable p a) ps args = true ->
   existsb2 unencodable ps args = true ->
+  has_nil_result args = false ->
   results_in known args = true ->
   transport known compiled ps args = ORunErr.
 Proof.
-  intros ps args Ht Hall Hex Hk.
-  unfold Invocation.transport. rewrite Ht. simpl.
+  intros Hrp ps args Ht Hall Hex Hn Hk.
+  unfold Invocation.transport. rewrite Hn, andb_false_r, Ht. simpl.
   assert (H : run_prefix known ps args = RunErr); [|now rewrite H].
   unfold Invocation.run_prefix.
-  revert args Ht Hall Hex Hk. induction ps as [|p ps IH]; intros [|a args] Ht Hall Hex Hk;
+  revert args Ht Hall Hex Hn Hk. induction ps as [|p ps IH]; intros [|a args] Ht Hall Hex Hn Hk;
     simpl in Ht, Hall, Hex; try discriminate.
   apply andb_true_iff in Ht as [Ht1 Ht]. apply andb_true_iff in Hall as [Ha1 Hall].
   rewrite results_in_cons in Hk. apply andb_true_iff in Hk as [Hk1 Hk].
+  rewrite has_nil_result_cons in Hn. apply orb_false_iff in Hn as [Hn1 Hn].
+  destruct (subst_arg_total known a Hk1 Hn1) as [a' Hsub].
+  destruct (subst_args_total known args Hk Hn) as [r [Er _]].
+  simpl. rewrite Hsub, Er. simpl.
   destruct (unencodable p a) eqn:Eu.
-  - (* this one fails; the rest only has to be substitutable *)
-    simpl. rewrite (unencodable_subst known p a Eu).
-    assert (Hs : exists r, subst_args known args = SOk r).
-    { clear IH Hex Ht. revert args Hall Hk. induction ps as [|q ps IH2]; intros [|b args] Hall Hk;
-        simpl in Hall; try discriminate; [now exists []|].
-      apply andb_true_iff in Hall as [Hb Hall]. rewrite results_in_cons in Hk.
-      apply andb_true_iff in Hk as [Hkb Hk]. destruct (IH2 args Hall Hk) as [r Er].
-      simpl. rewrite Er.
-      destruct b as [|c v|c|i|i]; simpl in Hb; try discriminate; simpl; eauto.
-      + unfold nil_representable in Hb. destruct c, (is_iface q); simpl in Hb; try discriminate; simpl; eauto.
-      + simpl in Hkb. rewrite andb_true_r in Hkb. rewrite Hkb. eauto. }
-    destruct Hs as [r Er]. rewrite Er. simpl.
-    now rewrite (unencodable_encode_err known p a a Eu (unencodable_subst known p a Eu)).
+  - now rewrite (unencodable_encode_err known p a a' Hrp Eu Hsub).
   - rewrite orb_false_r in Ha1. simpl in Hex.
-    specialize (IH args Ht Hall Hex Hk).
-    assert (Hsub : exists a', subst_arg known a = Some a').
-    { destruct a as [|c v|c|i|i]; simpl in Ha1; try discriminate; simpl; eauto.
-      simpl in Hk1. rewrite andb_true_r in Hk1. rewrite Hk1. eauto. }
-    destruct Hsub as [a' Hsub].
+    specialize (IH args Ht Hall Hex Hn Hk). rewrite Er in IH.
     destruct (target_accepts known p a a' Ht1 Ha1 Hsub) as [w [Ew _]].
-    simpl. rewrite Hsub.
-    destruct (subst_args known args) as [r|]; [|discriminate IH].
-    simpl. rewrite Ew. destruct (encode_args ps r); try discriminate IH. reflexivity.
+    rewrite Ew. destruct (encode_args ps r); try discriminate IH. reflexivity.
+Qed.
+
+Definition typed_nil_pointer (p : ptype) (a : arg) : bool :=
+  match a with ATNil c => is_pointer c | _ => false end.
+
+Lemma existsb2_mono {X Y} (f g : X -> Y -> bool) : (forall x y, f x y = true -> g x y = true) ->
+  forall xs ys, existsb2 f xs ys = true -> existsb2 g xs ys = true.
+Proof.
+  intros H xs. induction xs as [|x xs IH]; intros [|y ys] E; simpl in *; try discriminate.
+  apply orb_true_iff in E as [E|E]; apply orb_true_iff; [left; now apply H | right; now apply IH].
+Qed.
+
+(* Current code: a typed nil pointer argument (not a *Result) is never offered to
+   a machine and puts the task in TaskErr. *)
+Theorem nil_pointer_is_fatal known compiled : rp = true -> forall ps args,
+  typecheck ps args = true ->
+  forallb2 (fun p a => ships p a || unencodable p a) ps args = true ->
+  existsb2 typed_nil_pointer ps args = true ->
+  has_nil_result args = false ->
+  results_in known args = true ->
+  transport known compiled ps args = ORunErr /\
+  forall ws, run_prefix known ps args <> RunOffer ws.
+Proof.
+  intros Hrp ps args Ht Hall Hex Hn Hk.
+  assert (Hu : existsb2 unencodable ps args = true).
+  { apply (existsb2_mono typed_nil_pointer unencodable); [|exact Hex].
+    intros p a H. destruct a; simpl in H; try discriminate. reflexivity. }
+  split; [now apply unencodable_is_fatal | now apply unencodable_never_offered].
+Qed.
+
+(* Current code: a nil *Result argument makes Session.run return an error before
+   the invocation is made: nothing is typechecked, compiled, serialised or sent. *)
+Theorem nil_result_rejected known compiled ps args : rr = true ->
+  has_nil_result args = true -> transport known compiled ps args = OSessErr.
+Proof. intros Hrr H. unfold Invocation.transport. now rewrite Hrr, H. Qed.
+
+Lemma encode_args_no_panic : rp = true -> forall ps a1,
+  List.length ps = List.length a1 -> encode_args ps a1 <> EPanic.
+Proof.
+  intros Hrp ps. induction ps as [|p ps IH]; intros [|a a1] Hl; simpl in Hl; try discriminate.
+  simpl. injection Hl as Hl. specialize (IH a1 Hl).
+  assert (Ha : encode_arg p a <> E1Panic).
+  { unfold Invocation.encode_arg. rewrite Hrp.
+    destruct (is_iface p), a as [|c v|c|i|i]; try discriminate.
+    - destruct (regname c); discriminate.
+    - destruct (gob_handles c); discriminate.
+    - destruct (is_pointer c); discriminate. }
+  destruct (encode_arg p a); try contradiction; try discriminate.
+  destruct (encode_args ps a1); try contradiction; discriminate.
+Qed.
+
+Lemma typecheck_length : forall ps (args : list arg), typecheck ps args = true -> List.length ps = List.length args.
+Proof.
+  induction ps as [|p ps IH]; intros [|a args] H; simpl in H; try discriminate; [reflexivity|].
+  apply andb_true_iff in H as [_ H]. simpl. now rewrite (IH args H).
+Qed.
+
+(* Current code (both tests present): whatever the arguments, as long as their
+   Results are known to the executor, no panic escapes Run. *)
+Theorem current_code_never_panics known compiled ps args : rp = true -> rr = true ->
+  results_in known args = true -> transport known compiled ps args <> ORunPanic.
+Proof.
+  intros Hrp Hrr Hk. unfold Invocation.transport. rewrite Hrr. simpl.
+  destruct (has_nil_result args) eqn:Hn; [discriminate|].
+  destruct (typecheck ps args) eqn:Ht; simpl; [|discriminate].
+  unfold Invocation.run_prefix.
+  destruct (subst_args_total known args Hk Hn) as [a1 [Es El]]. rewrite Es.
+  pose proof (encode_args_no_panic Hrp ps a1) as Hp.
+  rewrite (typecheck_length ps args Ht), El in Hp. specialize (Hp eq_refl).
+  destruct (encode_args ps a1) as [ws| |]; try contradiction; try discriminate.
+  destruct (decode_args ps ws); [|discriminate].
+  destruct (subst_back compiled l); [|discriminate].
+  destruct (typecheck ps l0); discriminate.
 Qed.
 
 (* ---- dependencies ---- *)
@@ -282,46 +389,49 @@ Proof.
   - destruct H as [H|H]; [left; now inversion H | right; exact H].
 Qed.
 
-(* ill-typed arguments are rejected by Invocation(), before anything is sent *)
+(* ill-typed arguments are rejected before anything is sent: by Invocation(), or
+   already by Session.run's nil *Result test *)
 Theorem illtyped_rejected known compiled ps args :
-  typecheck ps args = false -> transport known compiled ps args = OTypeErr.
-Proof. intro H. unfold Invocation.transport. now rewrite H. Qed.
+  typecheck ps args = false ->
+  transport known compiled ps args = (if rr && has_nil_result args then OSessErr else OTypeErr).
+Proof. intro H. unfold Invocation.transport. rewrite H. reflexivity. Qed.
 
 (* ---- where the faithful model falls short of the property ---- *)
 
-(* the arguments that must arrive but are not shipped are exactly the nil ones *)
+(* the only arguments that must arrive but are not shipped: an untyped nil for a
+   nil-able non-interface parameter *)
 Theorem gap_is_nil p a :
   typecheck1 p a = true -> must_arrive p a = true -> ships p a = false ->
-  (a = ANil /\ is_iface p = false /\ nilable_p p = true) \/
-  (exists c, a = ATNil c /\ is_pointer c = true /\ (is_iface p = false \/ c = CResult)).
+  a = ANil /\ is_iface p = false /\ nilable_p p = true.
 Proof.
   intros Ht Hm Hs. destruct a as [|c v|c|i|i]; simpl in Hm, Hs; try congruence.
-  - left. repeat split; auto.
-  - right. unfold nil_representable in Hm. apply andb_true_iff in Hm as [Hm Hi].
-    exists c. repeat split; auto.
-    apply orb_true_iff in Hi as [Hi|Hi]; [left; now apply negb_true_iff | right; now destruct c].
+  repeat split; auto.
 Qed.
 
 (* untyped nil for a nil-able non-interface parameter: accepted by typecheck (and
-   by the local executor), but GobEncode fails ("cannot encode nil value") *)
+   by the local executor), but GobEncode fails ("cannot encode nil value"); holds
+   for every value of the switches (not repaired) *)
 Theorem nil_untyped_refuted :
   exists ps args, typecheck ps args = true /\ forallb2 must_arrive ps args = true /\
                   transport [] [] ps args = ORunErr.
-Proof. exists [PC CInts], [ANil]. repeat split. Qed.
-
-(* typed nil pointer: gob panics inside GobEncode, the panic escapes Run *)
-Theorem nil_pointer_refuted :
-  exists ps args, typecheck ps args = true /\ forallb2 must_arrive ps args = true /\
-                  transport [] [] ps args = ORunPanic.
-Proof. exists [PC CPtr], [ATNil CPtr]. repeat split. Qed.
-
-(* nil *Result: addInvocation dereferences it *)
-Theorem nil_result_refuted :
-  exists ps args, typecheck ps args = true /\ forallb2 must_arrive ps args = true /\
-                  transport [] [] ps args = ORunPanic.
-Proof. exists [PC CResult], [ATNil CResult]. repeat split. Qed.
+Proof. exists [PC CInts], [ANil]. destruct rr; repeat split. Qed.
 
 End TransportProofs.
+
+(* ---- witnesses for the code before the two fixes (switches off) ---- *)
+
+(* without the nil-pointer test in GobEncode a typed nil pointer makes gob panic
+   and the panic escapes Run *)
+Theorem nil_pointer_refuted (V B : Type) genc gdec (rr : bool) :
+  exists ps (args : list (arg V)), typecheck V ps args = true /\
+    transport V B genc gdec false rr [] [] ps args = ORunPanic.
+Proof. exists [PC CPtr], [ATNil CPtr]. destruct rr; repeat split. Qed.
+
+(* without the nil *Result test in Session.run addInvocation dereferences it *)
+Theorem nil_result_refuted (V B : Type) genc gdec (rp : bool) :
+  exists ps (args : list (arg V)), typecheck V ps args = true /\
+    transport V B genc gdec rp false [] [] ps args = ORunPanic.
+Proof. exists [PC CResult], [ATNil CResult]. destruct rp; repeat split. Qed.
 
 (* ---- shipping to a fresh worker: finite sweep over every dependency DAG on up
         to 4 earlier invocations (node k may depend on any subset of 0..k-1) and
